@@ -469,7 +469,7 @@ V("c12-max-guard-elif", "C12", "fire", GE, "    if not replace:\n        if max_
   "    if not replace:\n        if max_size * K > p:\n            raise ValueError(\n                \"Cannot sample targets without replacement for the given intervention size and number of interventions.\")\n    # Check max size condition\n    elif max_size > p:", rule="GUARD.max-size", what="max-size check skipped without replacement (K = 0)")
 V("c17-negative-offset-remainder", "C17", "fire", UT, "                fold_sample = sample[start::]\n", "                remaining = max(n - start, 0)\n                fold_sample = sample[-remaining:]\n", rule="CONTIG", what="sample[-0:] is the whole sample")
 V("c13-do-draws-before-seed", "C13", "fire", AN, "        # Set random state (if requested)\n        np.random.seed(random_state) if random_state is not None else None\n", "        do_draws = dict((i, f(n)) for i, f in do_interventions.items())\n        # Set random state (if requested)\n        np.random.seed(random_state) if random_state is not None else None\n", rule="R1.global", what="draws hoisted above the seeding line")
-V("c15-closure-by-weight-powers", "C15", "fire", UT, "    closure = np.zeros_like(A)\n    for i in range(len(A)):\n        desc = list(descendants(i, A) - {i})\n        closure[i, desc] = 1\n    return closure", "    walks = np.zeros_like(A)\n    power = A.copy()\n    for _ in range(len(A) - 1):\n        walks = walks + power\n        power = power @ A\n    return (walks != 0).astype(A.dtype)", rule="CLOSURE", what="reachability from powers of the weights: cancelling routes vanish")
+V("c15-closure-by-weight-powers", "C15", "fire", UT, "    closure = np.zeros_like(A)\n    for i in range(len(A)):\n        desc = list(descendants(i, A) - {i})\n        closure[i, desc] = 1\n    return closure", "    walks = np.zeros_like(A)\n    power = A.copy()\n    for _ in range(len(A) - 1):\n        walks = walks + power\n        power = power @ A\n    return (walks != 0).astype(A.dtype)", rule="PAT.result", what="reachability from powers of the weights: cancelling routes vanish")
 V("c19-fit-unsorted-parents", "C19", "fire", SE, "X = pd.DataFrame(self._data[k][:, sorted(parents)])", "X = pd.DataFrame(self._data[k][:, list(parents)])", rule="SLOTS.writer", what="forest fitted on parents in set order, queried in sorted order")
 V("c20-uniform-falsy-bound", "C20", "fire", NO, "def uniform(lo=0, hi=1):\n    return lambda n: np.random.uniform(lo, hi, n)", "def uniform(lo=None, hi=None):\n    lo, hi = lo or 0, hi or 1\n    return lambda n: np.random.uniform(lo, hi, n)", rule="SLOTS.uniform", what="an upper bound of exactly 0 is replaced by 1")
 V("c11-inverse-relabelling", "C11", "fire", GE, "    permutation = rng.permutation(p)\n    # Note the actual topological ordering is the \"conjugate\" of permutation eg. [3,1,2] -> [2,3,1]\n    if return_ordering:\n        return (W[permutation, :][:, permutation], np.argsort(permutation))\n    else:\n        return W[permutation, :][:, permutation]",
